@@ -194,6 +194,44 @@ func genPipeCase(r *vlib.R, emit func(string), dflt string) int {
 	return n + 1
 }
 
+// genSigsCase: S signatures × K colliding-tag keys on one RRset, verified under caps around K, S and S·K.
+func genSigsCase(r *vlib.R, emit func(string)) int {
+	S, K := r.Range(1, 12), r.Range(1, 12)
+	if r.Chance(1, 3) {
+		S, K = vlib.Pick(r, []int{8, 9, 12}), vlib.Pick(r, []int{2, 3, 4})
+	}
+	emit(fmt.Sprintf("sigs new %d %d %d %s %s", r.Intn(200), S, K, vlib.Pick(r, []string{"first", "last", "mid", "absent", "absent"}),
+		vlib.Pick(r, []string{"present", "present", "absent"})))
+	fx := curSigs
+	if fx == nil || fx.s != S || fx.k != K {
+		return 1
+	}
+	pos := func(i int) string {
+		if i < 0 {
+			return "-"
+		}
+		return fmt.Sprint(i)
+	}
+	n := r.Range(3, 7)
+	for i := 0; i < n; i++ {
+		cand := vlib.Pick(r, []int{4, 4, K, K - 1, K + 1, r.Range(1, 6)})
+		rrset := vlib.Pick(r, []int{8, 8, S, K, S * K, S*K - 1, cand * 2, r.Range(1, 12)})
+		sig := vlib.Pick(r, []int{32, 32, 64, rrset - 1, rrset + 1, r.Range(1, 40)})
+		if cand < 1 {
+			cand = 1
+		}
+		if rrset < 1 {
+			rrset = 1
+		}
+		if sig < 1 {
+			sig = 1
+		}
+		emit(fmt.Sprintf("sigs verify %s %d %d %d %s %s %d %d", vlib.Pick(r, []string{"enforce", "enforce", "enforce", "shadow", "off"}),
+			cand, rrset, sig, pos(fx.gpos), pos(fx.kpos), S, K))
+	}
+	return n + 1
+}
+
 type l3Plan struct {
 	fam      string
 	n, v     int
@@ -278,6 +316,10 @@ func planL3(r *vlib.R, fam string, v int, mode string, qmin int) l3Plan {
 		if fam == "manysig" && r.Chance(2, 3) {
 			p.sig = r.Range(1, 12)
 		}
+		if fam == "manysig" && v == 2 && r.Chance(2, 3) {
+			// aggregate budget out of the way: only the per-RRset / per-signature ceilings bound the work
+			p.sig, p.out, p.in = 1000, 0, 0
+		}
 	case "shadow":
 		if r.Chance(1, 2) {
 			p.out, p.in, p.sig = r.Range(1, 6), r.Range(1, 3), r.Range(0, 3)
@@ -302,6 +344,16 @@ func gen(r *vlib.R, n int, tier string, emit func(string)) {
 			emitc(fmt.Sprintf("sub nest %s %d %d %d", m, c, dInt, maxQ))
 		}
 	}
+	// the demo shapes of the per-RRset ceiling: many signatures × colliding key tags, nothing verifies
+	for _, sk := range [][2]int{{3, 4}, {8, 4}, {12, 3}, {12, 2}} {
+		emit(fmt.Sprintf("sigs new 1 %d %d absent absent", sk[0], sk[1]))
+		count++
+		if curSigs != nil && curSigs.s == sk[0] {
+			for _, m := range []string{"enforce", "shadow"} {
+				emitc(fmt.Sprintf("sigs verify %s 4 8 64 - - %d %d", m, sk[0], sk[1]))
+			}
+		}
+	}
 	// anchors: one hand-picked case per mechanism (sizes that cross the default budgets, the
 	// TCP fallback, the depth caps seen from outside)
 	for _, a := range [][]string{
@@ -321,6 +373,8 @@ func gen(r *vlib.R, n int, tier string, emit func(string)) {
 		{"l3 new nscycle 6 0 enforce 0 0 0 5 30", "l3 query t f t", "l3 again 2"},
 		{"l3 new manysig 12 0 enforce 0 0 0 0 30", "l3 query t t t", "l3 again 9"},
 		{"l3 new manysig 6 1 shadow 0 0 2 5 30", "l3 query t t t"},
+		{"l3 new manysig 8 2 enforce 0 0 1000 0 30", "l3 query t t t", "l3 again 11"},
+		{"l3 new manysig 6 2 shadow 0 0 1000 5 30", "l3 query t t t"},
 	} {
 		for _, op := range a {
 			emitc(op)
@@ -362,7 +416,9 @@ func gen(r *vlib.R, n int, tier string, emit func(string)) {
 			continue
 		}
 		before := count
-		switch k := r.Intn(20); {
+		switch k := r.Intn(23); {
+		case k >= 20:
+			count += genSigsCase(r, emit)
 		case k < 8:
 			count += genLedgerCase(r, emit, dflt)
 		case k < 11:
